@@ -34,6 +34,65 @@ def concretise_error(m, name, hl, maxn=4):
     return {"name": mstr(m, name), "highlights": hs}
 
 
+
+def highlight_order_uses(repo):
+    """places in norminette/ where Highlight objects (or lists of them) are ordered"""
+    import ast
+    from ..frames import scan
+    out = []
+    order_calls = {"min", "max", "sorted", "nsmallest", "nlargest", "heapify", "heappush", "merge"}
+    for rel, tree in scan.iter_modules(repo):
+        bound = set()           # names bound to a Highlight / a list of them, judged by the right-hand side
+        for node in ast.walk(tree):
+            if not isinstance(node, ast.Assign):
+                continue
+            vals = node.value.elts if isinstance(node.value, ast.Tuple) else None
+            for t in node.targets:
+                tgts = t.elts if isinstance(t, ast.Tuple) else [t]
+                for k, tg in enumerate(tgts):
+                    v = vals[k] if vals is not None and len(vals) == len(tgts) else node.value
+                    if isinstance(tg, ast.Name) and holds_highlights(v, bound):
+                        bound.add(tg.id)
+        for node in ast.walk(tree):
+            if isinstance(node, ast.Call):
+                f = node.func
+                name = f.id if isinstance(f, ast.Name) else f.attr if isinstance(f, ast.Attribute) else None
+                if name in order_calls and any(holds_highlights(x, bound) for x in node.args):
+                    out.append(f"{rel}:{node.lineno} {ast.unparse(node)[:60]}")
+                if name == "sort" and isinstance(f, ast.Attribute) and holds_highlights(f.value, bound):
+                    out.append(f"{rel}:{node.lineno} {ast.unparse(node)[:60]}")
+            if isinstance(node, ast.Compare) and any(isinstance(o, (ast.Lt, ast.Gt, ast.LtE, ast.GtE)) for o in node.ops):
+                if any(holds_highlights(x, bound) for x in [node.left] + node.comparators):
+                    out.append(f"{rel}:{node.lineno} {ast.unparse(node)[:60]}")
+    return out
+
+
+def holds_highlights(e, bound):
+    """syntactic: the expression denotes a Highlight or a collection of Highlights (`x.highlights`,
+    an element or slice of it, a constructor call, a name bound to one of these, a comprehension
+    over them) -- not an attribute of one (`h.column` is an int)"""
+    import ast
+    if isinstance(e, ast.Name):
+        return e.id in bound
+    if isinstance(e, ast.Attribute):
+        return e.attr == "highlights"
+    if isinstance(e, (ast.Subscript, ast.Starred)):
+        return holds_highlights(e.value, bound)
+    if isinstance(e, ast.Call):
+        f = e.func
+        if isinstance(f, ast.Name) and f.id in ("Highlight", "H", "list", "tuple", "iter", "reversed"):
+            return f.id in ("Highlight", "H") or any(holds_highlights(a, bound) for a in e.args)
+        return isinstance(f, ast.Attribute) and f.attr in ("from_token", "copy") and \
+            (holds_highlights(f.value, bound) or ast.unparse(f.value) in ("Highlight", "H"))
+    if isinstance(e, (ast.GeneratorExp, ast.ListComp)):
+        return holds_highlights(e.elt, bound | {g.target.id for g in e.generators
+                                                if isinstance(g.target, ast.Name) and holds_highlights(g.iter, bound)})
+    if isinstance(e, (ast.List, ast.Tuple)):
+        return bool(e.elts) and all(holds_highlights(x, bound) for x in e.elts)
+    if isinstance(e, ast.IfExp):
+        return holds_highlights(e.body, bound) or holds_highlights(e.orelse, bound)
+    return False
+
 def run(tier, seed, replay):
     if replay:
         rp = json.load(open(replay))
@@ -60,26 +119,35 @@ def run(tier, seed, replay):
 
     # ---------------------------------------------------------------- 1. comparator laws
     comp = SE.Comparator(E)
-    chk.functions.append({"function": SE.ERR + ":Highlight.__lt__", "paths": comp.paths["Highlight.__lt__"],
-                          "source_hash": chk.repo.func_hash(chk.repo.find_function(SE.ERR + ":Highlight.__lt__"))})
-    r, dt, _ = solve([comp.ltH_exc], T)
-    chk.smt("Highlight.__lt__.raises_nothing", r, dt, {"claim": "no path of Highlight.__lt__ raises"})
+    # Highlight.__lt__ carries a part of the property only where the product orders Highlight
+    # objects (min / max / sorted / sort / heapq over highlights, or `<` between two of them):
+    # Error.__lt__ at HEAD reads line and column of highlights[0] itself.  Without such a use a
+    # change to Highlight.__lt__ changes nothing a user can see, and its laws are not obligations.
+    uses = highlight_order_uses(chk.repo)
+    chk.notes.append("Highlight.__lt__ is " + (f"used to order highlights at {uses[:3]}: its laws are obligations" if uses else
+                                                "called by no product code (no min / max / sorted / sort / ordering comparison "
+                                                "over Highlight objects): its laws are not obligations of this run"))
+    if uses:
+        chk.functions.append({"function": SE.ERR + ":Highlight.__lt__", "paths": comp.paths["Highlight.__lt__"],
+                              "source_hash": chk.repo.func_hash(chk.repo.find_function(SE.ERR + ":Highlight.__lt__"))})
+        r, dt, _ = solve([comp.ltH_exc], T)
+        chk.smt("Highlight.__lt__.raises_nothing", r, dt, {"claim": "no path of Highlight.__lt__ raises"})
 
-    def H(tag):
-        return [z3.Int(tag + "l"), z3.Int(tag + "c"), z3.Bool(tag + "n"), z3.String(tag + "s")]
-    a, b, c = H("a"), H("b"), H("c")
-    lt = comp.ltH
-    laws = {
-        "irreflexive": [lt(*a, *a)],
-        "asymmetric": [lt(*a, *b), lt(*b, *a)],
-        "transitive": [lt(*a, *b), lt(*b, *c), z3.Not(lt(*a, *c))],
-        "incomparability_transitive": [z3.Not(lt(*a, *b)), z3.Not(lt(*b, *a)), z3.Not(lt(*b, *c)),
-                                       z3.Not(lt(*c, *b)), z3.Or(lt(*a, *c), lt(*c, *a))],
-    }
-    for name, conj in laws.items():
-        r, dt, _ = solve(conj, T)
-        chk.smt(f"Highlight.__lt__.strict_weak_order.{name}", r, dt,
-                {"claim": f"real Highlight.__lt__ (summary by symbolic execution) is {name}"})
+        def H(tag):
+            return [z3.Int(tag + "l"), z3.Int(tag + "c"), z3.Bool(tag + "n"), z3.String(tag + "s")]
+        a, b, c = H("a"), H("b"), H("c")
+        lt = comp.ltH
+        laws = {
+            "irreflexive": [lt(*a, *a)],
+            "asymmetric": [lt(*a, *b), lt(*b, *a)],
+            "transitive": [lt(*a, *b), lt(*b, *c), z3.Not(lt(*a, *c))],
+            "incomparability_transitive": [z3.Not(lt(*a, *b)), z3.Not(lt(*b, *a)), z3.Not(lt(*b, *c)),
+                                           z3.Not(lt(*c, *b)), z3.Or(lt(*a, *c), lt(*c, *a))],
+        }
+        for name, conj in laws.items():
+            r, dt, _ = solve(conj, T)
+            chk.smt(f"Highlight.__lt__.strict_weak_order.{name}", r, dt,
+                    {"claim": f"real Highlight.__lt__ (summary by symbolic execution) is {name}"})
 
     f, exc, assumptions = comp.summarize_error_lt()
     chk.functions.append({"function": SE.ERR + ":Error.__lt__", "paths": comp.paths["Error.__lt__"],
@@ -126,9 +194,11 @@ def run(tier, seed, replay):
                 replay=rp, what=what)
 
     # tie-break on equal printed keys: a < b iff a.name < b.name
-    r, dt, _ = solve(assumptions + wf + [pa[0] == pb[0], pa[1] == pb[1], f != (comp.na < comp.nb)], T)
+    # (two diagnostics with the same position and the same name print the same line whichever
+    # comes first: nothing is claimed for them)
+    r, dt, _ = solve(assumptions + wf + [pa[0] == pb[0], pa[1] == pb[1], comp.na != comp.nb, f != (comp.na < comp.nb)], T)
     chk.smt("Error.__lt__.ties_broken_by_name", r, dt,
-            {"claim": "equal printed positions: a < b iff a.name < b.name"})
+            {"claim": "equal printed positions, different names: a < b iff a.name < b.name"})
 
     # ---------------------------------------------------------------- 3. catalogue
     t0 = time.time()
